@@ -6,5 +6,8 @@ git -C /repo worktree add -q $WT HEAD || exit 2
 (cd $WT && git apply /verif/seeded/$S/patch.diff) || { git -C /repo worktree remove --force $WT; echo "patch failed"; exit 3; }
 VERIF_REPO=$WT /verif/check $P $T
 rc=$?
+H=$(printf %s "$WT" | md5sum | cut -c1-8)
+mkdir -p /verif/replays/seeded && rm -rf /verif/replays/seeded/$S-$P && mv /verif/replays/scratch-alt-$H /verif/replays/seeded/$S-$P 2>/dev/null
+rm -rf /verif/harness/bin-alt-$H /verif/harness/go-alt-$H.mod /verif/harness/go-alt-$H.sum /verif/harness/overlay/overlay-alt-$H.json
 git -C /repo worktree remove --force $WT
 exit $rc
